@@ -1,4 +1,7 @@
 #include "common.h"
+#ifndef VERIF_BUILD_TAG
+#define VERIF_BUILD_TAG "plain"      /* run.py passes "release" for the NDEBUG / -O2 / unsigned-char build */
+#endif
 #include <unistd.h>
 #include <fcntl.h>
 #include <signal.h>
@@ -142,8 +145,8 @@ static void write_replay(struct vrec *v)
                  (unsigned long long)v->seed, v->c);
         FILE *f = fopen(v->replay, "w");
         if (!f) { v->replay[0] = 0; return; }
-        fprintf(f, "{\"prog\":\"%s\",\"qcap\":%d,\"seed\":%llu,\"case\":%ld,\"tier\":\"%s\",\"prop\":\"%s\",\"key\":\"%s\",\"san\":%d}\n",
-                PROG_NAME, QCAP, (unsigned long long)v->seed, v->c, TIER, v->prop, v->key, SAN_REPLAY ? 1 : 0);
+        fprintf(f, "{\"prog\":\"%s\",\"qcap\":%d,\"seed\":%llu,\"case\":%ld,\"tier\":\"%s\",\"prop\":\"%s\",\"key\":\"%s\",\"san\":%d,\"build\":\"%s\"}\n",
+                PROG_NAME, QCAP, (unsigned long long)v->seed, v->c, TIER, v->prop, v->key, SAN_REPLAY ? 1 : 0, VERIF_BUILD_TAG);
         fprintf(f, "violation: %s\nat service step %ld\n\n--- scenario ---\n", v->msg, v->step);
         chk_describe(f);
         fprintf(f, "\n--- event log (tail) ---\n");
@@ -387,7 +390,11 @@ void w_reinit(int fillmode)
         }
 #endif
         scribble.s = 88172645463325252ULL;          /* the garbage handed back on refused reads is reproducible per parser instance */
-        cat_init(W.at, W.desc, &IO, W.use_mutex ? &MUTEX : NULL);
+        if (W.use_mutex && chance(25)) {      /* the interface struct is handed over first and filled in before the first API call (the library reads it through the pointer) */
+                struct cat_mutex_interface keep = MUTEX; MUTEX.lock = NULL; MUTEX.unlock = NULL;
+                cat_init(W.at, W.desc, &IO, &MUTEX);
+                MUTEX = keep; CNT("mutex_interfaces_bound_after_cat_init");
+        } else cat_init(W.at, W.desc, &IO, W.use_mutex ? &MUTEX : NULL);
 }
 void w_init(int fillmode)
 {
@@ -470,12 +477,13 @@ void out_reset(void) { OUTN = 0; }
 /* mutex mock */
 int MX_DEPTH; long MX_LOCKS, MX_UNLOCKS; long MX_FAIL_LOCK_AT = -1, MX_FAIL_UNLOCK_AT = -1;
 void (*ON_LOCK)(bool, int); void (*ON_LOCK_WAIT)(long);
+static const int MX_FAIL_VALUES[6] = { 1, -1, 16, -16, 255, -2147483647 - 1 };
 static int mx_lock(void)
 {
         long k = MX_LOCKS++;
         int r = 0;
         if (ON_LOCK_WAIT) ON_LOCK_WAIT(k);      /* the caller waits for the mutex here: whoever holds it may complete whole API calls meanwhile */
-        if (k == MX_FAIL_LOCK_AT) r = 1;
+        if (k == MX_FAIL_LOCK_AT) r = MX_FAIL_VALUES[k % 6];      /* "0 - ok, else error": any non-zero value */
         else if (MX_DEPTH != 0) { viol("C16", "lock-while-held", "mutex->lock called while the lock is already held"); r = 1; }      /* a non-recursive mutex: the attempt fails (a real one would deadlock) */
         else MX_DEPTH = 1;
         ev(EV_LOCK, k, r, 0);
@@ -485,7 +493,7 @@ static int mx_lock(void)
 static int mx_unlock(void)
 {
         long k = MX_UNLOCKS++;
-        int r = (k == MX_FAIL_UNLOCK_AT) ? 1 : 0;
+        int r = (k == MX_FAIL_UNLOCK_AT) ? MX_FAIL_VALUES[(k + 3) % 6] : 0;
         if (MX_DEPTH != 1) viol("C16", "unlock-not-held", "mutex->unlock called while the lock is not held");
         if (ON_LOCK) ON_LOCK(false, r);      /* snapshot is taken before the lock is considered released */
         MX_DEPTH = 0;
